@@ -197,8 +197,7 @@ def model_ops(d):
     return norm(ops)
 
 CENSUS2_EXPECT_SRC = {      # bodies whose loops live in helper Fixpoints of the model: the source token list is written down
-    "logp": ["!", "*", "*=", "+=", "<<", "<<", "le", "le", "lt"],
-    "pp": ["!", "eq"],
+    "logp": ["!", "*", "*=", "+=", "<<", "<<", "le", "le", "lt", "lt"],      # incl. `p < 2` (since /repo 2291e98)
 }
 
 
